@@ -9,6 +9,10 @@ pub struct Storage {
     pub pairs: Ghost<Map<Seq<u8>, PairInfoRaw>>,   // PAIRS: Map<&[u8], PairInfoRaw>
     pub allow: Ghost<Map<Seq<u8>, u8>>,            // ALLOW_NATIVE_TOKENS: Map<&[u8], u8>
 }
+pub open spec fn range_ok(p: Map<Seq<u8>, PairInfoRaw>, keys: Seq<Seq<u8>>, items: Seq<StdResult<(Vec<u8>, PairInfoRaw)>>) -> bool {
+    keys.no_duplicates() && keys.len() == items.len() && (forall|k: Seq<u8>| p.dom().contains(k) <==> keys.contains(k))
+    && (forall|i: int| 0 <= i < keys.len() ==> p.dom().contains(#[trigger] keys[i]) && items[i] is Ok && items[i]->Ok_0.0@ == keys[i] && items[i]->Ok_0.1 == p[keys[i]])
+}
 pub struct ItemConfig { pub dummy: u8 }
 pub struct ItemTmp { pub dummy: u8 }
 pub struct MapPairs { pub dummy: u8 }
@@ -29,6 +33,10 @@ impl MapPairs {
     #[verifier::external_body] pub fn may_load(&self, s: &Storage, k: &Vec<u8>) -> (r: StdResult<Option<PairInfoRaw>>)
         ensures r is Ok,   // stored values always deserialize (they were written through save)
             (r->Ok_0 is Some <==> s.pairs@.dom().contains(k@)) && (r->Ok_0 is Some ==> r->Ok_0->Some_0 == s.pairs@[k@]) { unimplemented!() }
+    // Map::range(storage, None, None, Order::Ascending), collected: every stored record exactly once (its key and its value); stored values
+    // always deserialize -- ASSUMED (cw-storage-plus / cosmwasm storage iterator)
+    #[verifier::external_body] pub fn range_all(&self, s: &Storage) -> (r: Vec<StdResult<(Vec<u8>, PairInfoRaw)>>)
+        ensures exists|keys: Seq<Seq<u8>>| range_ok(s.pairs@, keys, r@) { unimplemented!() }
     #[verifier::external_body] pub fn load(&self, s: &Storage, k: &Vec<u8>) -> (r: StdResult<PairInfoRaw>)
         ensures r is Ok ==> s.pairs@.dom().contains(k@) && r->Ok_0 == s.pairs@[k@] { unimplemented!() }
     #[verifier::external_body] pub fn save(&self, s: &mut Storage, k: &Vec<u8>, v: &PairInfoRaw) -> (r: StdResult<()>)
